@@ -13,7 +13,8 @@ Instruction semantics: `Ebv.Ebpf` (validated three-way).  Proof chain:
   mathematical value `evalZ` (Python integers);
 * `assign_correct_reg`, `assign_correct_mem`, `stmts_correct`, `C01_partial` below: statements and programs, in
   terms of `Ebpf.run`;
-* `*_refuted`: the defect classes of the unchanged generator, each on a concrete witness. -/
+* `*_refuted`: the defect classes of the unchanged generator, each on a concrete witness;
+* `before_fix_sum_minus`: regression witness of a repaired class (`Sum - expression`). -/
 namespace Ebv.C01
 open Ebv.Ebpf Ebv.Gen
 
@@ -203,11 +204,11 @@ def compileAll (env : List VarLoc) : List Stmt → Option (List CStmt)
 
 theorem setReg_ensure {v : PyVal} {e : Expr} (h : ensureExpr v = .ok e) (no : Nat) (long : Bool) :
     setReg no long v = setReg no long (.ex e) := by
-  cases v <;> simp [ensureExpr, typeError] at h <;> subst h <;> rfl
+  cases v <;> simp [ensureExpr] at h <;> subst h <;> rfl
 
 theorem setMem_ensure {v : PyVal} {e : Expr} (h : ensureExpr v = .ok e) (fmt : Fmt) (addr : Expr) :
     setMem fmt addr v = setMem fmt addr (.ex e) := by
-  cases v <;> simp [ensureExpr, typeError] at h <;> subst h <;> rfl
+  cases v <;> simp [ensureExpr] at h <;> subst h <;> rfl
 
 theorem emitStmt_compile {env : List VarLoc} {st : Stmt} {cs : CStmt} (h : compile env st = some cs) :
     emitStmt env st = cs.emit := by
@@ -289,14 +290,15 @@ def CStmt.rhs : CStmt → Expr
 def _root_.Ebv.Gen.Stmt.rhs : Stmt → SExpr
   | .set _ s => s
 
-/-- the surface-level side conditions (decidable): no computed addresses, not in class *sum-minus* -/
-def _root_.Ebv.Gen.Stmt.surfaceOk (env : List VarLoc) (st : Stmt) : Bool := st.rhs.noM && !sumMinus env st.rhs
+/-- the surface-level side condition (decidable): no computed addresses.  (Until `Sum.__sub__` was repaired this
+also excluded the class *sum-minus*, `Sum - expression`; see `before_fix_sum_minus` below.) -/
+def _root_.Ebv.Gen.Stmt.surfaceOk (_env : List VarLoc) (st : Stmt) : Bool := st.rhs.noM
 
 theorem compile_evalZ (env : List VarLoc) (σ : State) {st : Stmt} {cs : CStmt} (hc : compile env st = some cs)
     (hok : st.surfaceOk env = true) : evalZ σ cs.rhs = st.rhs.evalZ env σ := by
   cases st with
   | set d s =>
-    simp only [Stmt.surfaceOk, Stmt.rhs, Bool.and_eq_true, Bool.not_eq_true'] at hok
+    simp only [Stmt.surfaceOk, Stmt.rhs] at hok
     simp only [compile] at hc
     cases hv : elabE env s with
     | error err => rw [hv] at hc; simp at hc
@@ -308,9 +310,8 @@ theorem compile_evalZ (env : List VarLoc) (σ : State) {st : Stmt} {cs : CStmt} 
       | ok e =>
         rw [he] at hc
         simp only [] at hc
-        have hvn : v ≠ .none := by intro h; subst h; simp [ensureExpr, typeError] at he
         have hev : evalZ σ e = v.evalZ σ := by
-          cases v <;> simp [ensureExpr, typeError] at he <;> subst he <;> rfl
+          cases v <;> simp [ensureExpr] at he <;> subst he <;> rfl
         have hrhs : cs.rhs = e := by
           cases d with
           | reg view no => simp only [Option.some.injEq] at hc; subst hc; rfl
@@ -320,7 +321,7 @@ theorem compile_evalZ (env : List VarLoc) (σ : State) {st : Stmt} {cs : CStmt} 
             | none => rw [hl] at hc; simp at hc
             | some l => rw [hl] at hc; simp only [Option.map_some, Option.some.injEq] at hc; subst hc; rfl
         rw [hrhs, hev]
-        exact elab_evalZ env σ s v hok.1 hok.2 hv hvn
+        exact elab_evalZ env σ s v hok hv
 
 /-- the specification of a statement **in terms of the surface expression the user wrote**: the destination holds
 the Python-integer value of that expression modulo 2^(8·size), in the destination's format -/
@@ -364,7 +365,7 @@ theorem specs_surface (env : List VarLoc) : ∀ (sts : List Stmt) (cs : List CSt
 /-! ## the property -/
 
 /-- every hypothesis of `C01_partial` as one decidable predicate on the program: surface side conditions (no
-computed addresses, not *sum-minus*), every statement's right-hand side can be built, and every built statement is
+computed addresses), every statement's right-hand side can be built, and every built statement is
 well-typed, inside the proved fragment and in none of the classes *unary-in-place*, *narrow-reg-in-64*,
 *unary-32-in-64* -/
 def progOk (p : Prog) : Bool :=
@@ -491,12 +492,53 @@ def s3 : State := st0 [(3, 0xffffffff), (10, 4096)]
 theorem narrow_reg_in_64_refuted : progTyped p3 = true ∧ (emitProg p3).toOption.isSome = true ∧
     regAfter (codeOf p3) s3 2 = 4294967295 ∧ want p3 s3 e3 = 18446744073709551615 := by decide +kernel
 
-/-- *sum-minus*: `self.r2 = (self.r5 + 3) - self.r3` computes r5 + 3 + r3 -/
+/-! ### `Sum - expression`, `Sum ± int`, one `Sum` object used twice (repaired: was class *sum-minus*)
+
+`self.r2 = (self.r5 + 3) - self.r3`.  Before the fix `Sum.__sub__` fell back to `__add__` for a non-integer operand
+and built `Binary(Sum(r5, 3), r3, ADD)`; `Sum ± int` changed the `Constant` of the `Sum` in place and returned `None`.
+The regression witness keeps the old tree by hand; the statement about the generator as it is now is `C01_partial`
+at full strength (`p4` satisfies `progOk`). -/
 def e4 : SExpr := .bin .sub (.bin .add (.reg .r 5) (.c 3)) (.reg .r 3)
 def p4 : Prog := ⟨[1, 3, 5, 10], stdVars, [.set (.reg .r 2) e4]⟩
 def s4 : State := st0 [(3, 4), (5, 10), (10, 4096)]
-theorem sum_minus_refuted : progTyped p4 = true ∧ (emitProg p4).toOption.isSome = true ∧
-    sumMinus (layout p4.vars) e4 = true ∧ regAfter (codeOf p4) s4 2 = 17 ∧ want p4 s4 e4 = 9 := by decide +kernel
+
+/-- the `Expression` object the operator overloads build for a surface expression -/
+def builtTree (p : Prog) (e : SExpr) : Option Expr :=
+  match elabE (layout p.vars) e with
+  | .ok (.ex x) => some x
+  | _ => none
+
+/-- the object `(self.r5 + 3) - self.r3` was **before the fix**: `Binary(Sum(r5, 3), r3, ADD)` -/
+def before_fix_tree4 : Expr :=
+  .bin .add (.bin .add (.reg 5 true false) (.const 3) false .sum) (.reg 3 true false) false .plain
+
+/-- what `self.r2 = <that object>` emits -/
+def before_fix_code4 : List Insn :=
+  match setReg 2 true (.ex before_fix_tree4) (initState p4) with
+  | .ok (_, g) => g.code
+  | .error _ => []
+
+/-- **regression witness** (formerly `sum_minus_refuted`): the tree the unrepaired `Sum.__sub__` built computes
+r5 + 3 + r3 = 17 where the surface expression means 9; the repaired operator protocol builds the `SUB` tree, `p4`
+satisfies every hypothesis of `C01_partial`, is accepted, and the emitted code computes 9 -/
+theorem before_fix_sum_minus :
+    regAfter before_fix_code4 s4 2 = 17 ∧ want p4 s4 e4 = 9 ∧
+    builtTree p4 e4 = some (.bin .sub (.bin .add (.reg 5 true false) (.const 3) false .sum)
+      (.reg 3 true false) false .plain) ∧
+    progOk p4 = true ∧ (emitProg p4).toOption.isSome = true ∧ regAfter (codeOf p4) s4 2 = 9 := by decide +kernel
+
+/-- one `Sum` object used twice with different added constants, `s = self.r5 + 3; self.r2 = (s + 4) * (2 + (s - 1))`:
+`Sum ± int` and `int + Sum` build new `Sum` objects (r5 + 7, r5 + 2, r5 + 2), `s` keeps its constant; inside
+`C01_partial`, accepted, (10 + 7) · (2 + 12) = 238 -/
+def e4s : SExpr := .bin .add (.reg .r 5) (.c 3)
+def e4a : SExpr := .bin .mul (.bin .add e4s (.c 4)) (.bin .add (.c 2) (.bin .sub e4s (.c 1)))
+def p4a : Prog := ⟨[1, 3, 5, 10], stdVars, [.set (.reg .r 2) e4a]⟩
+
+example : builtTree p4a (.bin .add e4s (.c 4)) = some (.bin .add (.reg 5 true false) (.const 7) false .sum) ∧
+    builtTree p4a (.bin .add (.c (-9)) (.bin .sub e4s (.c 1))) = some (.bin .add (.reg 5 true false) (.const (-7)) true .sum) ∧
+    builtTree p4a e4s = some (.bin .add (.reg 5 true false) (.const 3) false .sum) ∧
+    progOk p4a = true ∧ (emitProg p4a).toOption.isSome = true ∧
+    regAfter (codeOf p4a) s4 2 = 238 ∧ want p4a s4 e4a = 238 := by decide +kernel
 
 /-- *abs-32* (stage 3, corresponded only): `self.w2 = abs(self.sw3)` with sw3 = −1 is not negated -/
 def e5 : SExpr := .abs (.reg .sw 3)
